@@ -15,6 +15,7 @@ import os
 import common
 import impl_next
 import trainer_io
+import unicode_pool
 from props.C04 import collect
 
 ID = "C03"
@@ -169,6 +170,10 @@ W_WORDS_ENC = {"utf-8": {5: ["весна", "осень", "école"],
                "cp1251": {5: ["весна", "осень"],
                           6: ["пароль", "привет"]},
                "latin-1": {5: ["école", "crème"], 6: ["garçon", "façade"]}}
+# alpha words that are not in Unicode normal form C (all letters without case): six Hangul conjoining jamo (NFC: two syllables),
+# five CJK compatibility ideographs (NFC: the unified ideographs)
+W_WORDS_ENC["utf-8"][6].append(unicode_pool.nfd(unicode_pool.U("d55c ae00")))
+W_WORDS_ENC["utf-8"][5].append(unicode_pool.U("f900 f901 f902 f903 f904"))
 W_DIGITS = {1: list("0123456789"), 2: ["12", "07", "99", "21", "00", "69"], 3: ["123", "007", "321", "999", "000"],
             4: ["1234", "4321", "0000", "1111", "7890"]}
 W_OTHER = {1: list("!#$%&*?._-"), 2: ["!!", "!?", "$$", "**", "..", "#$"]}
@@ -445,6 +450,8 @@ def process(ctx, st, code, name, rd, tree, passwords, enc, cov, replay, rle=None
                 continue
             dist["supported"] += 1
             supported.append(p)
+            if not unicode_pool.nfc_stable(p):
+                dist["supported_not_nfc"] = dist.get("supported_not_nfc", 0) + 1
             kinds = "".join(sorted(set(lab[0] for _, lab in sl)))
             dist["kinds"][kinds] = dist["kinds"].get(kinds, 0) + 1
             if p not in lang:
@@ -552,6 +559,16 @@ def run(ctx):
             for x in extra:
                 passwords += [x] * ctx.rng.choice([1, 2])
             dist["lists_with_unusual_blanks_or_format_chars"] = dist.get("lists_with_unusual_blanks_or_format_chars", 0) + 1
+        if i % 6 == 4 and i < nlists:
+            # text that is NOT in Unicode normal form C next to its NFC twin, as two different training passwords with counts
+            # of their own (harness/unicode_pool.py: base letter + combining mark, marks in non-canonical order, singletons
+            # such as U+212B / U+037E, Hangul conjoining jamo, CJK compatibility ideographs; q + U+0301 as the stable control).
+            # Only utf-8 can hold them; the generated part is cut so that the pipeline model runs on the same list.
+            enc = "utf-8"
+            passwords = trainer_io.flatten([e for e in entries if trainer_io.encodable(e[0], enc)][:5])
+            for x in unicode_pool.passwords(ctx.rng, 3 + (i // 6) % 2):
+                passwords += [x] * ctx.rng.choice([1, 1, 2, 3])
+            dist["lists_with_non_nfc_passwords"] = dist.get("lists_with_non_nfc_passwords", 0) + 1
         if enc == "latin-1" and i % 2 == 0:
             passwords += ["caf\u00e9\u00a0noir", "na\u00efve\u00ad1"]
         if i % 4 == 1:
